@@ -527,10 +527,19 @@ func genC40(rng *kernel.RNG, idx int, tier string) *kernel.Plan {
 	if rng.Chance(0.25) {
 		mode = 0
 	}
-	if tier == "thorough" && rng.Chance(0.3) {
+	// large validator sets: 30% of the thorough runs, 15% of the quick runs (N >= 28 is where a
+	// seed can run out of positions before enough committers are found)
+	pBig := 0.15
+	if tier == "thorough" {
+		pBig = 0.3
+	}
+	if rng.Chance(pBig) {
 		mode = 1
-		n = rng.Range(11, 40)
-		maxn = 40
+		n = rng.Range(11, 46)
+		maxn = 46
+		if rng.Chance(0.5) {
+			n = rng.Range(31, 46)
+		}
 	}
 	p.Cfg["n"], p.Cfg["mode"], p.Cfg["maxn"] = int64(n), mode, int64(maxn)
 	p.Cfg["blocks"] = int64(rng.Range(1, 3))
@@ -561,7 +570,7 @@ func genC40(rng *kernel.RNG, idx int, tier string) *kernel.Plan {
 func init() {
 	kernel.Register(&kernel.Check{
 		ID: "C40", Level: "exploration", Engine: "E4 round (participant selection)",
-		Rule:        "a run fixes a validator set (N=4..10; thorough also 11..40) and walks it through membership changes (add/remove peer, non-contiguous indices, permuted pool order, new config height), rebuilding the chain config with the real GenesisChainConfig each time; each eval step takes one seed (VRF of a real sealed block of a chain.World ledger, plan-random VRF bytes in a synthetic previous block, or a structured raw seed) and evaluates selection on 3 independently built nodes x 8 times, half of them on codec copies of block and config; non-trivial = at least one selection evaluated; distinct = digest of the selected lists",
+		Rule:        "a run fixes a validator set (N=4..10; 15% of quick and 30% of thorough runs use 11..46) and walks it through membership changes (add/remove peer, non-contiguous indices, permuted pool order, new config height), rebuilding the chain config with the real GenesisChainConfig each time; each eval step takes one seed (VRF of a real sealed block of a chain.World ledger, plan-random VRF bytes in a synthetic previous block, or a structured raw seed) and evaluates selection on 3 independently built nodes x 8 times, half of them on codec copies of block and config; non-trivial = at least one selection evaluated; distinct = digest of the selected lists",
 		Real:        []string{"consensus/vbft buildParticipantConfig, calcParticipantPeers, calcParticipant, getParticipantSelectionSeed (through export_verif.go)", "consensus/vbft/config GenesisChainConfig (pos table, shuffle), ChainConfig JSON codec", "vbft.Block Serialize/Deserialize", "core/genesis + ledger for runs that take seeds and the configuration from a real chain"},
 		Stub:        []string{"governance pool contents are synthesised (peer lists with increasing, possibly sparse indices in arbitrary order, as GetPeersConfig returns them from a Go map); the VBFT Server is not run"},
 		Assumptions: []string{"C is taken from the configuration under test: GenesisChainConfig sets C = N/3 (not floor((N-1)/3)); both are exercised", "seeds reachable through getParticipantSelectionSeed are SHA-512 outputs; structured raw seeds are evaluated through calcParticipantPeers directly and a raw seed without any selection is counted, not alarmed", "'exclude the leading proposers' is read as: the first C of the C+1 proposers do not reappear among endorsers or committers"},
